@@ -57,6 +57,9 @@ pub struct SchedScenario {
     pub enumerate_faults: bool,
     #[serde(default)]
     pub only_fault: Option<u32>,
+    /// real storage backend the recording storage forwards every call to
+    #[serde(default)]
+    pub backend: crate::sched::RealBackend,
 }
 
 /// One injected fault of the C13 enumeration.
@@ -265,7 +268,7 @@ const MAX_WAITS: u32 = 20_000;
 fn user_task<S: Settings, M: nuts_rs::Model>(settings: S, sc: &SchedScenario, p: &ExecParams, rec: SharedRecorder, model: M, shared: Arc<Mutex<Shared>>) {
     use nuts_rs_verif_rt::clock::next_event;
     let faults = if p.with_faults { sc.store_faults.clone() } else { StoreFaults::default() };
-    let cfg = RecConfig { rec: rec.clone(), faults };
+    let cfg = RecConfig { rec: rec.clone(), faults, backend: sc.backend };
     let callback = p.callback_rate_us.map(|us| {
         let sh = shared.clone();
         ProgressCallback {
@@ -888,6 +891,18 @@ impl SchedScenario {
         let mut dg = Digest::new();
         let nc = num_chains(&self.preset);
         let prop = self.prop.as_str();
+        BASE_REAL.with(|c| {
+            c.set(match &base.final_outcome {
+                FinalOutcome::Trace(t) => match &t.real {
+                    Some(Ok(d)) => Some(*d),
+                    _ => None,
+                },
+                _ => None,
+            })
+        });
+        if let FinalOutcome::Trace(RecFinal { real: Some(Err(e)), .. }) = &base.final_outcome {
+            out.violate(format!("{prop}/real_backend_failed/{:?}", self.backend), format!("uninterrupted run: {}", e.chars().take(200).collect::<String>()));
+        }
         let ks: Vec<u32> = match self.only_schedule {
             Some(k) => vec![k],
             None => (0..self.n_schedules).collect(),
@@ -973,6 +988,11 @@ fn was_aborted(sc: &SchedScenario, ex: &ExecResult) -> bool {
 /// Trace comparison shared by C10/C11/C12: the recorded per-chain sequences equal the baseline's (a
 /// prefix if the run was aborted), and the finalized trace returned to the user holds exactly what
 /// was recorded.
+thread_local! {
+    /// digest of the real backend's finalized trace in the baseline run of the scenario being judged
+    static BASE_REAL: std::cell::Cell<Option<u64>> = const { std::cell::Cell::new(None) };
+}
+
 fn check_traces(prop: &str, sc: &SchedScenario, ex: &ExecResult, base: &[Vec<u64>], out: &mut RunOutcome, tag: &str) {
     let nc = base.len();
     let chains = per_chain(&ex.records, nc);
@@ -1023,6 +1043,34 @@ fn check_traces(prop: &str, sc: &SchedScenario, ex: &ExecResult, base: &[Vec<u64
             let seq: Vec<u64> = chains[c].iter().map(|r| r.digest).collect();
             if *digs != seq {
                 out.violate(format!("{prop}/finalized_trace_differs_from_recorded"), format!("{tag}: chain {c}: finalized {} draws, recorded {}", digs.len(), seq.len()));
+            }
+        }
+        // the real storage backend behind the recording one (fault-free properties only)
+        if prop != "C13" {
+            match &fin.real {
+                None => {}
+                Some(Err(e)) => out.violate(format!("{prop}/real_backend_failed/{:?}", sc.backend), format!("{tag}: finalising the {:?} trace failed: {}", sc.backend, e.chars().take(200).collect::<String>())),
+                Some(Ok(d)) => {
+                    out.probe("real_backend_traces_finalized", 1);
+                    if !aborted && matches!(ex.final_outcome, FinalOutcome::Trace(_)) {
+                        if let Some(b) = BASE_REAL.with(|c| c.get()) {
+                            if b != *d {
+                                out.violate(
+                                    format!("{prop}/real_backend_trace_differs_from_uninterrupted_run/{:?}", sc.backend),
+                                    format!("{tag}: the {:?} trace of this run (complete, not aborted) differs from the one of the uninterrupted single-core run although the recorded draws are identical", sc.backend),
+                                );
+                            }
+                            out.probe("real_backend_traces_compared", 1);
+                        }
+                    }
+                }
+            }
+        }
+    }
+    if prop != "C13" {
+        for e in &ex.events {
+            if let Some(RecFinal { real: Some(Err(m)), .. }) = &e.inspected {
+                out.violate(format!("{prop}/real_backend_inspect_failed/{:?}", sc.backend), format!("{tag}: {}", m.chars().take(200).collect::<String>()));
             }
         }
     }
